@@ -1,0 +1,44 @@
+//go:build verif
+
+// Copyright 2023 StreamNative, Inc.
+//
+// Licensed under the Apache License, Version 2.0 (the "License");
+// you may not use this file except in compliance with the License.
+// You may obtain a copy of the License at
+//
+//     http://www.apache.org/licenses/LICENSE-2.0
+//
+// Unless required by applicable law or agreed to in writing, software
+// distributed under the License is distributed on an "AS IS" BASIS,
+// WITHOUT WARRANTIES OR CONDITIONS OF ANY KIND, either express or implied.
+// See the License for the specific language governing permissions and
+// limitations under the License.
+
+package kv
+
+import "github.com/pkg/errors"
+
+// VerifCompact forces a manual compaction of the whole key space (verification harness only).
+func VerifCompact(k KV) error {
+	p, ok := k.(*Pebble)
+	if !ok {
+		return errors.New("not a pebble KV")
+	}
+	it, err := p.db.NewIter(nil)
+	if err != nil {
+		return err
+	}
+	if !it.First() {
+		return it.Close()
+	}
+	first := append([]byte{}, it.Key()...)
+	it.Last()
+	last := append([]byte{}, it.Key()...)
+	if err := it.Close(); err != nil {
+		return err
+	}
+	if OxiaSlashSpanComparer.Compare(first, last) >= 0 {
+		return nil
+	}
+	return p.db.Compact(first, last, true)
+}
